@@ -78,7 +78,7 @@ CHECKS = {
  "C13": {
   "level": "proof",
   "technique": "Coq proofs of writer/reader contracts + exhaustive grids against protobuf-go protowire",
-  "text": "Proved in Coq for all values/sizes (no bound): all 30 single writers (15 kinds x Always) append exactly the reference field or nothing; Message/AlwaysMessage/PresentMessage/AlwaysAnyBytes compose to tag+len+payload for every length and leave no trace on absence; C13_encoder_programs (Schema/Calls.v): EVERY program of Encoder calls - the 60 typed writers (single and repeated/packed), RepeatedEnum, UnrecognizedFields, and Message/AlwaysMessage/PresentMessage/AlwaysAnyBytes nested to any depth, with callbacks that write anything and then report presence or absence - appends exactly the concatenation of the reference encodings to whatever the buffer held; C13_absent_message_no_trace. Readers: untouched on another field, sticky error naming the field on a wrong wire type, exactly one field consumed otherwise; on ARBITRARY input every single reader satisfies the token contract (C13_reader_any_input), Repeated* readers consume all consecutive occurrences packed or not (C13_repeated_reader_iteration, C13_packed_is_reference_unpack), and Message/RepeatedMessage/UnrecognizedFields readers compose into T_dec. Per run: the writer/reader grids, 4000 random Encoder-call programs through the real API (fresh, stale and one-byte-capacity buffers), readers inside Message callbacks followed by a failing reader or the public Fail() at the outer level, all against the model and protobuf-go's protowire.",
+  "text": "Proved in Coq for all values/sizes (no bound): all 30 single writers (15 kinds x Always) append exactly the reference field or nothing; Message/AlwaysMessage/PresentMessage/AlwaysAnyBytes compose to tag+len+payload for every length and leave no trace on absence; C13_encoder_programs (Schema/Calls.v): EVERY program of Encoder calls - the 60 typed writers (single and repeated/packed), RepeatedEnum, UnrecognizedFields, and Message/AlwaysMessage/PresentMessage/AlwaysAnyBytes nested to any depth, with callbacks that write anything and then report presence or absence - appends exactly the concatenation of the reference encodings to whatever the buffer held; C13_absent_message_no_trace. Readers: untouched on another field, sticky error naming the field on a wrong wire type, exactly one field consumed otherwise; on ARBITRARY input every single reader satisfies the token contract (C13_reader_any_input), Repeated* readers consume all consecutive occurrences packed or not and only ever append to the list they find (C13_repeated_reader_iteration, C13_packed_is_reference_unpack, C13_repeated_reader_appends), and Message/RepeatedMessage/UnrecognizedFields readers compose into T_dec. Per run: the writer/reader grids, 4000 random Encoder-call programs through the real API (fresh, stale and one-byte-capacity buffers), readers inside Message callbacks followed by a failing reader or the public Fail() at the outer level, 1500 sequences of reader calls over one input with destinations that persist from call to call (afterwards no earlier output and no input byte may have changed), all against the model and protobuf-go's protowire.",
   "note": "Trusted: Coq 8.16.1 kernel (vm_compute, no native_compute, no axioms: Print Assumptions recorded in evidence), extraction with ExtrOcamlBasic, the OCaml driver, the Go harness and generators, protobuf-go v1.31.0 as oracle. The tie between model and Go code is differential testing on the projection named in the level text, not proof.",
   "ref": "8 C13"
  },
@@ -92,7 +92,7 @@ CHECKS = {
  "C15": {
   "level": "proof",
   "technique": "Coq algebraic proofs over the full 32-bit domain + grids (thorough: exhaustive 2^32 sweep)",
-  "text": "Proved in Coq for all values/sizes (no bound): for every value of every 32-bit kind the bytes are the closed form of the encoding document (sign extension, zig-zag, little-endian two's complement) and decoding returns the value; no exceptional value. The proof covers all 2^32 values algebraically.",
+  "text": "Proved in Coq for all values/sizes (no bound): for every value of every 32-bit kind the bytes are the closed form of the encoding document (sign extension, zig-zag, little-endian two's complement) and decoding returns the value; no exceptional value. The proof covers all 2^32 values algebraically. C15_repeated_keeps_earlier: on any input a Repeated* reader leaves the list it found followed by new elements (nothing decoded earlier is lost, however many packed or unpacked records follow). Per run: writer/reader grids with non-zero initial lists and sequences of reader calls with persistent destinations, against the model and protowire.",
   "note": "Trusted: Coq 8.16.1 kernel (vm_compute, no native_compute, no axioms: Print Assumptions recorded in evidence), extraction with ExtrOcamlBasic, the OCaml driver, the Go harness and generators, protobuf-go v1.31.0 as oracle. The tie between model and Go code is differential testing on the projection named in the level text, not proof.",
   "ref": "8 C15"
  },
